@@ -462,9 +462,21 @@ def extract(repo, recipe):
 
 
 DIRECTIVE = re.compile(r'/\*@(extract|unit)\s*(\{.*?\})\s*@\*/', re.S)
+INCLUDE = re.compile(r'/\*@include\s+([\w./-]+)\s*@\*/')
 
 
-def expand_template(repo, template_text, defines=None):
+def splice_includes(text, basedir):
+    """/*@include name@*/ -> contents of spec/<name> (a template fragment that may itself contain directives)."""
+    for _ in range(8):
+        m = INCLUDE.search(text)
+        if not m:
+            return text
+        inc = open(os.path.join(basedir, m.group(1))).read()
+        text = text[:m.start()] + inc + text[m.end():]
+    raise ExtractError('include nesting too deep')
+
+
+def expand_template(repo, template_text, defines=None, basedir=None):
     """Return (c_text, units, extracts_info)."""
     units = []
     infos = []
@@ -486,6 +498,8 @@ def expand_template(repo, template_text, defines=None):
         txt, info = extract(repo, d)
         infos.append(info)
         return txt
+    if basedir:
+        template_text = splice_includes(template_text, basedir)
     out = DIRECTIVE.sub(f, template_text)
     return out, units, infos
 
